@@ -582,7 +582,49 @@ class C03(Prop):
             src += 'rule m%d { condition: "%s" matches %s }\n' % (i, litx, retext)
         return {"node": node, "ci": ci, "da": da, "mods": mods, "src": src, "inputs": inputs, "subjects": subjects}
 
+    def gen_last_alt_family(self, rng):
+        """an alternation that is the last (or only) literal-bearing part of the regex: one branch ends on a
+        wildcard / class, another on a literal run; before it nothing, or lazy / non-literal parts."""
+        L = lambda b: ["lit", b, 0]
+        wild = lambda: rng.choice([["dot"], ["class", ["perl", "w", False]], ["class", ["br", [["range", 0x61, 0x7A]], False]]])
+        w1 = [rng.choice([0x2E, 0x61, 0x63]), rng.choice([0x65, 0x78, 0x61]), rng.choice([0x78, 0x65])][:rng.range(1, 3)]
+        w2 = [rng.choice([0x2E, 0x63]), rng.choice([0x64, 0x6C]), rng.choice([0x6C, 0x64])][:rng.range(2, 3)]
+        # a leading dot closes the run on the left: the literals of this branch can only come from its middle
+        b_wild = ([["dot"]] if rng.chance(3, 4) else []) + [L(b) for b in w1] + [rng.choice([["dot"], wild()])]
+        b_lit = [L(b) for b in w2]
+        branches = [["cat", b_wild], ["cat", b_lit] if len(b_lit) > 1 else b_lit[0]]
+        if rng.chance(1, 3):
+            branches.append(["cat", [["dot"], L(0x31), ["dot"]]])
+        branches = rng.shuffle(branches)
+        before = rng.choice([[], [["dot"]], [["rep", ["class", ["perl", "w", False]], ["+"], False]],
+                             [["class", ["perl", "d", False]]], [["rep", ["dot"], ["n,m", 0, 2], False]]])
+        after = rng.choice([[], [], [["rep", ["dot"], ["?"], False]], [["assert", "wb"]]])
+        body = before + [["group", ["alt", branches]]] + after
+        node = body[0] if len(body) == 1 else ["cat", body]
+        mods = {"nocase": rng.chance(1, 5), "wide": False, "ascii": False, "fullword": False}
+        ci, da = False, rng.chance(1, 2)
+        retext = "/%s/%s" % (re_text(node), "s" if da else "")
+        modtext = "".join(" " + m for m in ("nocase", "wide", "ascii", "fullword") if mods[m])
+        used = sorted(node_bytes(node, set())) or [0x61]
+        alphabet = used * 3 + [0x20, 0x37, 0x6B]
+        inputs = []
+        for i in range(4):
+            r = rng.fork("la%d" % i)
+            parts = []
+            for _ in range(r.range(1, 3)):
+                parts += [r.bytes(r.range(1, 4), [0x20, 0x6B, 0x37, 0x6C]), sample(r, node, ci or mods["nocase"], da, alphabet)]
+            parts.append(r.bytes(r.range(0, 3), [0x20, 0x6E, 0x6F]))
+            inputs.append(b"".join(parts)[:64].hex())
+        subjects = [sample(rng.fork("ls0"), node, False, da, alphabet).hex(), b"load k7.dll now".hex()]
+        src = "rule r { strings: $a = %s%s condition: $a or true }\n" % (retext, modtext)
+        for i, sj in enumerate(subjects):
+            litx = "".join("\\x%02x" % b for b in bytes.fromhex(sj))
+            src += 'rule m%d { condition: "%s" matches %s }\n' % (i, litx, retext)
+        return {"node": node, "ci": ci, "da": da, "mods": mods, "src": src, "inputs": inputs, "subjects": subjects}
+
     def gen_case(self, rng):
+        if rng.chance(1, 18):
+            return self.gen_last_alt_family(rng)
         if rng.chance(1, 18):
             return self.gen_greedy_lazy_mix(rng)
         if rng.chance(1, 16):
